@@ -43,6 +43,17 @@ pub fn alphabet() -> Vec<St> {
     st!("sm := stats/sum/column(c)", &["sm"], &["c"], false),
     st!("mm := c ** c", &["mm"], &["c"], false),
     st!("j := t ⋈ t", &["j"], &["t"], false),
+    st!("ou := b' ** b", &["ou"], &["b"], false),
+    st!("ip := b ** b'", &["ip"], &["b"], false),
+    st!("mv := c ** [1; 2]", &["mv"], &["c"], false),
+    st!("vm := [1 2] ** c", &["vm"], &["c"], false),
+    st!("dt := b · b", &["dt"], &["b"], false),
+    st!("cs := math/cos(a)", &["cs"], &["a"], false),
+    st!("ab := math/abs(z)", &["ab"], &["z"], false),
+    st!("sq := b ^ 2", &["sq"], &["b"], false),
+    st!("md := b % 2", &["md"], &["b"], false),
+    st!("hc := [b b]", &["hc"], &["b"], false),
+    st!("vc := [b; b]", &["vc"], &["b"], false),
     // mutable state and mutation statements
     st!("~x := 10", &["x"], &[], false),
     st!("~y := [1 2 3]", &["y"], &[], false),
@@ -56,6 +67,9 @@ pub fn alphabet() -> Vec<St> {
     st!("y += 1", &[], &["y"], true),
     st!("y[[1 3]] = [7 8]", &[], &["y"], true),
     st!("x = a", &[], &["x", "a"], true),
+    st!("x = x + 1", &[], &["x"], true),
+    st!("x = a + x", &[], &["x", "a"], true),
+    st!("y = y * 2", &[], &["y"], true),
     st!("p := x + 1", &["p"], &["x"], false),
     st!("q := y * 2", &["q"], &["y"], false),
     st!("yy := y[2]", &["yy"], &["y"], false),
@@ -140,6 +154,16 @@ impl UnitRunner for C19 {
         match step(&mut sc, n) {
           Ok(()) => { let t = sc.snapshot(); if t != singles[n as usize] { out.fail(format!("C19|n-singles-differ|{}", locus), case.clone(), format!("step(0,{}) vs {} single steps: {}", n, n, first_diff(&t, &singles[n as usize]))); } }
           Err(e) => out.fail(format!("C19|step-failed|{}", locus), case.clone(), format!("step(0,{}): {}", n, e)),
+        }
+      }
+    }
+    // the profiled code path of step() must behave like the plain one (n single steps = one request for n, same values)
+    for n in 1..=maxn {
+      if let Some(mut sp) = run_prog(&self.al, prog) {
+        sp.intrp.profile = true;
+        match step(&mut sp, n) {
+          Ok(()) => { let t = sp.snapshot(); if t != singles[n as usize] { out.fail(format!("C19|n-singles-differ|profiled:{}", locus), case.clone(), format!("profiled step(0,{}) vs {} plain single steps: {}", n, n, first_diff(&t, &singles[n as usize]))); } }
+          Err(e) => out.fail(format!("C19|step-failed|profiled:{}", locus), case.clone(), format!("profiled step(0,{}): {}", n, e)),
         }
       }
     }
